@@ -96,3 +96,35 @@ def append_before_end(src, lines):
     if not src.endswith(b"\n"):
         src += nl
     return src + add
+
+
+_fam = None
+
+
+def family_of(cpu):
+    """name of the code generator source that registers this CPU (upper-case CPU name) or None"""
+    global _fam
+    if _fam is None:
+        _fam = {}
+        for path in sorted(glob.glob(os.path.join(build.REPO, "code*.c"))):
+            try:
+                txt = open(path, encoding="latin-1").read()
+            except OSError:
+                continue
+            for c in re.finditer(r"AddCPU\w*\(\s*\"([^\"]+)\"", txt):
+                _fam.setdefault(c.group(1).upper(), os.path.basename(path))
+    return _fam.get((cpu or "").upper())
+
+
+_byfam = None
+
+
+def tests_by_family(names):
+    global _byfam
+    if _byfam is None:
+        _byfam = {}
+        for n in names:
+            f = family_of(cpu_of_test(n))
+            if f:
+                _byfam.setdefault(f, []).append(n)
+    return _byfam
